@@ -17,6 +17,13 @@ func (h *vDB) forceRotation() {
 	h.runPending()
 }
 
+// dropReadStore rotates once more with an empty memstore: no table is written for it, but the memstore that was
+// rotated out last (and still answers reads for the newest table's keys) is gone, so that from here on only the
+// tables answer - a wrong order of the table readers is otherwise masked until the next rotation.
+func (h *vDB) dropReadStore() {
+	h.forceRotation()
+}
+
 // vBuildTables writes nT tables through the real client calls: per table each key of the universe is
 // untouched, put (symbolic value) or deleted.
 func (h *vDB) vBuildTables(nT int) {
@@ -69,6 +76,7 @@ func vCycle(universe [][]byte, nT int, reduced bool) {
 	h.checkLeaks = true
 	vrt.Assert(h.open(MemstoreSizeBytes(math.MaxUint64), WriteBufferSizeBytes(64), ReadBufferSizeBytes(64)) == nil, "db/open-no-error")
 	h.vBuildTables(nT)
+	h.dropReadStore()
 	vrt.Assert(h.tables() == nT, "cycle/one-table-per-rotation")
 	h.checkReads("cycle/reads-before")
 
@@ -121,4 +129,47 @@ func vCycle(universe [][]byte, nT int, reduced bool) {
 	vrt.TraceBool("done", true)
 	h.close()
 	vrt.Reach("cycle/end")
+}
+
+// H_C06_FourTables: a compaction over the two oldest of four tables (the two newer ones are larger and stay): the
+// tables that are not part of the run must keep their order behind the merged one. Two keys: a in every table
+// (each newer table disagrees with the older ones), b only in the two newer, larger tables.
+func H_C06_FourTables() {
+	vrt.RandPromoteBudget(0)
+	h := vNewDBEnvU(vUniverse)
+	defer h.fs.Cleanup()
+	h.checkLeaks = true
+	opts := []ExtraOption{MemstoreSizeBytes(math.MaxUint64), WriteBufferSizeBytes(64), ReadBufferSizeBytes(64)}
+	vrt.Assert(h.open(opts...) == nil, "four/open-no-error")
+	a, b := vUniverse[0], vUniverse[1]
+	for t := 0; t < 4; t++ {
+		if t > 0 && vrt.Choose(vrt.K("t", t, "del"), 2) == 1 {
+			h.del(a)
+			vrt.Tag("has-tombstone")
+		} else {
+			h.put(a, []byte{byte(10 + t)})
+		}
+		if t >= 2 {
+			h.put(b, []byte{byte(20 + t)})
+		}
+		h.forceRotation()
+	}
+	h.dropReadStore()
+	vrt.Assert(h.tables() == 4, "four/one-table-per-rotation")
+	h.checkReads("four/reads-before")
+	h.db.compactedMaxSizeBytes = h.chooseMaxSize("maxsize")
+	h.db.compactionRatio = vRatios[vrt.Choose("ratio", 2)]
+	h.db.compactionFileThreshold = 0
+	before := h.tables()
+	h.compactionCycle()
+	if h.cycles > 0 && h.tables() >= 3 && h.tables() < before {
+		vrt.Reach("four/run-of-older-tables-compacted-newer-ones-stay")
+	}
+	h.checkReads("four/reads-unchanged-by-compaction")
+	h.close()
+	vrt.Assert(h.open(opts...) == nil, "four/reopen-no-error")
+	h.checkReads("four/reads-unchanged-after-restart")
+	h.close()
+	vrt.TraceBool("done", true)
+	vrt.Reach("four/end")
 }
